@@ -7,6 +7,7 @@ functions the interface itself uses to build the DAG (`load_and_check_functions`
 """
 from __future__ import annotations
 
+import copy
 import datetime
 import functools
 import inspect
@@ -48,7 +49,13 @@ def fresh_env(d):
 def simulate(data, d=None, *, env=None, targets=None, rounding=True, debug=False,
              check_minimal_specification="ignore", aggregate_by_group_specs=None,
              aggregate_by_p_id_specs=None, quiet=True):
-    params, functions = env if env is not None else policy_env(d)
+    if env is not None:
+        params, functions = env
+    else:
+        # a private deep copy of the cached parameters for every call (0.7 ms): a rule that writes into
+        # its parameter dictionary can then not hide behind an earlier call that already wrote the same
+        params, functions = policy_env(d)
+        params = copy.deepcopy(params)
     with warnings.catch_warnings():
         if quiet:
             warnings.simplefilter("ignore")
